@@ -277,11 +277,12 @@ PROPERTIES = {
         assumptions=[SHAPE_ASSUMPTION] + COMMON_ASSUMPTIONS[:2],
     ),
     "C13": dict(
-        rules=[S2.rule_fields, SG.rule_castinv, r_pure_ser("R-PURE/C13", ["rule_to_json", "schema_to_json"], ["rule", "schema"]), S2.rule_sort, S2.rule_eq_const_fields, R.rule_c19_raises, S2.rule_eqwrite],
+        rules=[S2.rule_fields, SG.rule_castinv, r_pure_ser("R-PURE/C13", ["rule_to_json", "schema_to_json"], ["rule", "schema"]), S2.rule_sort, S2.rule_eq_const_fields, R.rule_c19_raises, S2.rule_eqwrite, S2.rule_guarded],
         explanation=(
             "Clauses decided: (1) Rule.to_json_like emits only JSON-typed fields (condition / path through their own serialisers, cast as type names), the keys it writes are the keys from_spec reads, "
             "schemas map their rule list element-wise; (2) by finite evaluation over CAST_LOOKUP, what the writer emits for each cast parses back to the same cast; "
-            "(3) fields that equality compares but the JSON form does not carry are only ever constant; serialisation is pure.  Not decided: equality of results on every document (inherits C11/C12)."
+            "(3) fields that equality compares but the JSON form does not carry are only ever constant; serialisation is pure; (4) the path writer the rule serialiser calls emits a plain or explicit part only "
+            "under tests that establish which part it stands for (R-GUARDED, shared with C12).  Not decided: equality of results on every document (inherits C11/C12)."
         ),
         assumptions=[SHAPE_ASSUMPTION] + COMMON_ASSUMPTIONS[:2],
     ),
@@ -405,7 +406,7 @@ MANIFEST_TEXT = {
         technique="guard-set (dominating condition) rule + mutation / aliasing analysis of the serialisers",
     ),
     "C13": dict(
-        level="Decides JSON-typing and reader/writer field agreement of the rule / schema serialisers, cast round trip by finite evaluation over the whole cast table, and that non-serialised compared fields stay constant.",
+        level="Decides JSON-typing and reader/writer field agreement of the rule / schema serialisers, cast round trip by finite evaluation over the whole cast table, that non-serialised compared fields stay constant, and the guard sets of the path writer it calls.",
         note="finite evaluation covers every entry of CAST_LOOKUP; document-level equality inherits C11/C12",
         technique="finite evaluation of the writer's cast expression against the reader's tables + field-agreement rules",
     ),
